@@ -33,18 +33,35 @@ def run_native(lines):
     return p.stdout.splitlines(), (p.stderr[-1500:] if p.returncode != 0 else None)
 
 
-def stock_reader(kind):
-    """the installed extension's stock readers for a kind-spec"""
-    import uproot_custom.cpp as uc
-    k = kind[0]
-    if k in "bhilfd":
-        ctype = {"b": "u1", "h": "u2", "i": "u4", "l": "u8", "f": "u4", "d": "u8"}[k]
-        return uc.PrimitiveReader("m", ctype) if hasattr(uc, "PrimitiveReader") else None
-    if k == "T":
-        return uc.TObjectReader("TObject", False)
-    if k == "A":
-        return uc.CStyleArrayReader("arr", kind[1], stock_reader(kind[2])) if hasattr(uc, "CStyleArrayReader") else None
-    return uc.AnyClassReader("cls", [stock_reader(m) for m in kind[1]])
+INSTALLED_CHILD = r'''
+import sys, json, numpy as np
+import pybes3.besio.besio_cpp as bcpp
+import uproot_custom.cpp as uc
+LEAF = {"b": uc.UInt8Reader, "h": uc.UInt16Reader, "i": uc.UInt32Reader, "f": uc.UInt32Reader, "l": uc.UInt64Reader, "d": uc.UInt64Reader}
+def rd(k):
+    if k[0] in LEAF: return LEAF[k[0]]("m")
+    if k[0] == "T": return uc.TObjectReader("TObject", False)
+    if k[0] == "A":
+        if k[2][0] not in LEAF: raise NotImplementedError
+        return uc.CStyleArrayReader("arr", k[1], rd(k[2]))
+    return uc.AnyClassReader("cls", [rd(m) for m in k[1]])
+cases = json.load(open(sys.argv[1]))
+out = []
+for kind, entries_hex, counts in cases:
+    try:
+        elem = rd(kind)
+    except NotImplementedError:
+        out.append(None); continue
+    r = bcpp.Bes3TObjArrayReader("col", elem)
+    data = np.frombuffer(bytes.fromhex("".join(entries_hex)), dtype=np.uint8)
+    offs = np.concatenate([[0], np.cumsum([len(x) // 2 for x in entries_hex])]).astype(np.uint32)
+    try:
+        offsets, _ = uc.read_data(data, offs, r)
+        out.append([int(x) for x in offsets])
+    except Exception as ex:
+        out.append("ERROR " + str(ex)[:100])
+print(json.dumps(out))
+'''
 
 
 def synthetic(chk: core.Check, n_streams: int):
@@ -87,42 +104,74 @@ def synthetic(chk: core.Check, n_streams: int):
             diffs.append({"stream": idx, "tag": tag, "kind": rs.spec_str(kind), "model": mout[idx][:120], "native": nl[:120]})
     if diffs:
         chk.obligation_broken("correspondence", "Lean TObjArray model vs native reader on synthetic streams", str(diffs[:3]))
-    # installed extension with the stock element readers (third leg), on a subset
+    # installed extension with the stock element readers (third leg), on a subset, in a sacrificial child process
     try:
-        import pybes3.besio.besio_cpp as bcpp
-        import uproot_custom.cpp as uc
-        n_inst = 0
-        for tag, kind, entries, counts, leaves in cases[:: 3]:
-            if tag != "ok" or not entries:
-                continue
-            elem = stock_reader(kind)
-            if elem is None:
-                break
-            r = bcpp.Bes3TObjArrayReader("col", elem)
-            data = np.frombuffer(b"".join(entries), dtype=np.uint8)
-            offs = np.concatenate([[0], np.cumsum([len(x) for x in entries])]).astype(np.uint32)
-            offsets, _ = uc.read_data(data, offs, r)
-            n_inst += 1
-            if list(map(int, offsets)) != np.concatenate([[0], np.cumsum(counts)]).astype(int).tolist():
-                chk.obligation_broken("correspondence", "installed Bes3TObjArrayReader offsets on a synthetic stream", f"{list(offsets)} vs counts {counts}")
-                break
-        chk.coverage["installed_extension_streams"] = n_inst
+        sub = [(kind, [x.hex() for x in entries], counts) for tag, kind, entries, counts, leaves in cases[:: 3] if tag == "ok" and entries]
+        fd, pth = tempfile.mkstemp(suffix=".json"); os.close(fd)
+        json.dump(sub, open(pth, "w"))
+        r = subprocess.run([core.PY, "-c", INSTALLED_CHILD, pth], capture_output=True, text=True, timeout=600)
+        os.unlink(pth)
+        if r.returncode != 0:
+            chk.coverage["installed_extension_streams"] = f"child exited with {r.returncode}: {r.stderr[-200:]}"
+        else:
+            res = json.loads(r.stdout.strip().splitlines()[-1])
+            n_inst = 0
+            for (kind, eh, counts), got in zip(sub, res):
+                if got is None:
+                    continue
+                n_inst += 1
+                want = np.concatenate([[0], np.cumsum(counts)]).astype(int).tolist()
+                if got != want:
+                    chk.obligation_broken("correspondence", "installed Bes3TObjArrayReader (stock element readers) offsets on a synthetic stream", f"{rs.spec_str(kind)}: {str(got)[:200]} vs {want}")
+                    break
+            chk.coverage["installed_extension_streams"] = n_inst
     except Exception as ex:
         chk.coverage["installed_extension_streams"] = f"not run: {type(ex).__name__}: {ex}"
     chk.sample({"element_class": rs.spec_str(cases[0][1]), "per_event_counts": cases[0][3], "first_entry_hex": (cases[0][2][0].hex()[:120] if cases[0][2] else "")})
 
 
 ORACLE_CHILD = r'''
-import sys, json, uproot, awkward as ak, numpy as np
+import sys, json, uproot, numpy as np
 assert "pybes3" not in sys.modules
 path, out = sys.argv[1], sys.argv[2]
+
+def conv(o, depth=0):
+    if depth > 12:
+        return None
+    if isinstance(o, uproot.model.UnknownClass):
+        raise NotImplementedError("uproot cannot deserialise " + o.classname)
+    if isinstance(o, uproot.model.Model):
+        if o.classname in ("TObjArray", "TList") or type(o).__name__.startswith("Model_TObjArray"):
+            return [conv(x, depth + 1) for x in o]
+        if o.classname == "TString" or type(o).__name__.startswith("Model_TString"):
+            return None
+        d = {}
+        for k, v in o.all_members.items():
+            if k.startswith("@") or k in ("fUniqueID", "fBits"):
+                continue
+            d[k] = conv(v, depth + 1)
+        return d
+    if isinstance(o, np.ndarray):
+        return [conv(x, depth + 1) for x in o] if o.dtype == object else o.tolist()
+    if isinstance(o, np.generic):
+        return o.item()
+    if isinstance(o, (str, bytes)):
+        return None
+    if isinstance(o, uproot.containers.STLMap):
+        return {"__map__": [[conv(k, depth + 1), conv(v, depth + 1)] for k, v in o.items()]}
+    if isinstance(o, (uproot.containers.STLVector, uproot.containers.STLSet, list, tuple)):
+        return [conv(x, depth + 1) for x in o]
+    if isinstance(o, dict):
+        return {str(k): conv(v, depth + 1) for k, v in o.items()}
+    return o
+
 res = {}
 f = uproot.open(path)
 tree = f["Event"]
 for name in json.loads(sys.argv[3]):
     try:
-        arr = tree[name].array()
-        res[name] = ak.to_list(arr)
+        arr = tree[name].array(library="np")
+        res[name] = [conv(ev) for ev in arr]
     except Exception as ex:
         res[name] = {"__error__": f"{type(ex).__name__}: {str(ex)[:200]}"}
 json.dump(res, open(out, "w"), default=lambda o: o.tolist() if hasattr(o, "tolist") else str(o))
@@ -264,7 +313,7 @@ def digi(chk: core.Check):
         sub = rng.sample(["m_intId", "m_timeChannel", "m_chargeChannel", "m_trackIndex"], rng.randint(1, 4))
         pos = rng.randint(0, len(names))
         fields = names[:pos] + ["TRawData"] + names[pos:]
-        n = rng.choice([0, 1, 3])
+        n = rng.choice([1, 2, 3])
         counts = [rng.choice([0, 1, 2]) for _ in range(n)]
         tot = sum(counts)
         col = {}
